@@ -52,7 +52,18 @@ func c15History(r *report.R, id string) {
 		ctx := n.Ctx()
 		evaluated := 0
 		for _, ir := range routes {
-			msg, bad := ir.Invar(ctx)
+			var msg string
+			var bad bool
+			func() {
+				// an invariant that cannot even be evaluated (the distribution invariants run the
+				// withdrawal code on a cache branch) is a broken invariant
+				defer func() {
+					if rec := recover(); rec != nil {
+						msg, bad = fmt.Sprintf("evaluation panicked: %.200v", rec), true
+					}
+				}()
+				msg, bad = ir.Invar(ctx)
+			}()
 			evaluated++
 			if bad {
 				broken = ir.ModuleName + "/" + ir.Route
@@ -90,7 +101,16 @@ func c15History(r *report.R, id string) {
 	lastFamilies = map[string]int{}
 	nblocks := r.Pick(60, 160)
 	for b := 0; b < nblocks && broken == ""; b++ {
-		g.block()
+		func() {
+			// a block that the application cannot process (panic in BeginBlock / EndBlock) halts the chain
+			defer func() {
+				if rec := recover(); rec != nil {
+					broken = "block-processing-panicked"
+					r.Violation(id, "block-processing-panicked", fmt.Sprintf("height %d: %.300v", n.Height, rec), map[string]any{"cfg": h, "height": n.Height})
+				}
+			}()
+			g.block()
+		}()
 	}
 	r.Eval(int(n.Height))
 	if len(routes) < 12 {
